@@ -1174,6 +1174,10 @@ def raise_types(rep, idx):
                 if n.exc is None or getattr(n, "_inlined_from", None):
                     continue                                            # re-raise / copy of a helper's raise (classified there)
                 e = n.exc.func if isinstance(n.exc, ast.Call) else n.exc
+                if ast.unparse(e) == "AssertionError":
+                    # `raise AssertionError(...)` is `assert False` spelled out: an internal invariant, not a refusal of user input
+                    rep.ok("C19.5", f.site, "raise AssertionError", "an explicit assertion failure (same as `assert False`)", nontrivial=False)
+                    continue
                 if ast.unparse(e) == "NotImplementedError" and f.cls is not None:
                     # an abstract hook of a private base class: unreachable when every subclass in the package overrides it
                     body = [s for s in f.node.body if not (isinstance(s, ast.Expr) and isinstance(s.value, ast.Constant))]
@@ -1223,6 +1227,11 @@ def raise_types(rep, idx):
                                            ast.unparse(r.exc.func if isinstance(r.exc, ast.Call) else r.exc) == k[1] for r in ast.walk(g.node))
                         return False
                     gone = [k for k in same_file if not still_there(k)]
+                    if not gone:
+                        # the raise moved to another file (a mixin / helper module): same exception type, same function name
+                        other_file = [k for k in EXC_TABLE if k[1] == exc and k not in used and k[0].rsplit(".", 1)[-1] == f.site.rsplit(".", 1)[-1]
+                                      and not still_there(k)]
+                        gone = other_file[:1]
                     if gone:
                         key = gone[0]
                 if exc in ("ValueError", "TypeError"):
